@@ -270,7 +270,7 @@ class FPtoInt_SP(Logic):
         final_m_neg = g.hw_neg(final_m_pos)
         
         final_m = g.hw_if(sign, final_m_neg, final_m_pos)
-        pos_ext_p_lost = g.hw_not_equal_constant(g.hw_range(shifted, 32, 0), 0)
+        pos_ext_p_lost = g.hw_not_equal_constant(g.hw_range(shifted, 31, 0), 0)
 
         # if exponent is negative we have to shift right first by e 
         # then shift right 24 bits. But this will surelly be less than 1
